@@ -30,8 +30,10 @@ Proof. exact (squeeze_dense_zero_mode v0). Qed.
 Theorem C07_squeeze_sizes_positive : forall (s : shape) (l : list nat), forallb (Nat.ltb 0) s = true -> sqn s l = sqz s l.
 Proof. exact (fun s l => sqn_sqz s l). Qed.
 
-(* ---------------- sptensor.squeeze as the property demands it on every shape (squeeze_sp_any; pyttb still tests `shape > 1`:
-   open finding N-C07-7, the sparse sibling of N-C07-6) *)
+(* ---------------- sptensor.squeeze as the property demands it on every shape (squeeze_sp_any; finding N-C07-7, the sparse sibling of
+   N-C07-6: /repo up to 6e4bb42 tests `shape > 1`, the repair fixes/C07-N-C07-7.diff tests `shape != 1`.  What the text regenerated on
+   the run does on holders with a size-0 mode is stated over the generated method in Props/C07Gen4.v:
+   C07_squeeze_sparse_zero_mode_generated / C07_squeeze_sparse_zero_mode_code) *)
 Theorem C07_squeeze_sparse_any_shape : forall (isz : V -> bool) (S : sparse V),
   Forall (fun j => inb (sshape S) j = true) (ssubs S) ->
   match squeeze_sp_any v0 S with
@@ -157,7 +159,8 @@ Example C07_example_squeeze_sparse_zero_mode :
   squeeze_sp_any 0%Z (mkSp [0] [] (@nil Z)) = SqT (mkSp [0] [] []) /\
   squeeze_sp_any 0%Z (mkSp [2; 1; 3] [[1; 0; 2]] [4%Z]) = SqT (mkSp [2; 3] [[1; 2]] [4%Z]) /\
   squeeze_sp_any 0%Z (mkSp [1; 1] [] (@nil Z)) = SqScalar 0%Z /\
-  (* the code as written (Model/C07Impl.v, `shape > 1`) drops the size-0 mode / answers with a scalar: N-C07-7 *)
+  (* the return statements with the test `shape > 1` (Model/C07Impl.v; /repo up to 6e4bb42) drop the size-0 mode / answer with a
+     scalar: N-C07-7; with `shape != 1` (Model/C07Gen4.v squeeze_sp_impl_ne) they are squeeze_sp_any: Props/C07Gen4.v *)
   squeeze_sp_impl 0%Z (mkSp [2; 0; 1] [] (@nil Z)) = Some (SqT (mkSp [2] [] [])) /\
   squeeze_sp_impl 0%Z (mkSp [1; 0] [] (@nil Z)) = Some (SqScalar 0%Z).
 Proof. repeat split; reflexivity. Qed.
